@@ -276,6 +276,8 @@ def render(v: Val) -> str:
         return f'{v[1]}(' + ', '.join(render(p) for p in v[2]) + ')'
     if k == 'list':
         return '[' + render(v[1]) + ', ...]'
+    if k == 'count':
+        return f'<len({v[1]})>'
     if k == 'slotelem':
         return f'<element of self.{v[1]}>'
     if k == 'field':
@@ -344,6 +346,8 @@ class Sym:
             return ('det', '%', (ev(e.left),) + tuple(ev(x) for x in r))
         if isinstance(e, ast.BinOp) and isinstance(e.op, ast.Div):  # pathlib style a / b
             return _cat([ev(e.left), ('const', '/'), ev(e.right)])
+        if isinstance(e, ast.BinOp) and isinstance(e.op, (ast.Sub, ast.Mult, ast.FloorDiv, ast.Mod, ast.Pow)):
+            return ('det', type(e.op).__name__, (ev(e.left), ev(e.right)))
         if isinstance(e, ast.IfExp):
             return _alt([ev(e.body), ev(e.orelse)])
         if isinstance(e, ast.Attribute):
@@ -468,6 +472,8 @@ class Sym:
             return _cat(parts)
         if d == 'str' and len(e.args) == 1 and not e.keywords:
             return ev(e.args[0])
+        if d == 'len' and len(e.args) == 1 and not e.keywords:
+            return ('count', pf.nsrc(e.args[0])[:40])  # a length: deterministic, carries none of the element values
         if d in ('max', 'min') and len(e.args) == 1:
             return self._elem(ev(e.args[0]))
         if d in ('list', 'tuple', 'sorted', 'reversed') and len(e.args) == 1:
@@ -1028,3 +1034,38 @@ def find_witness(stmts: Sequence[ast.stmt], recv: Optional[str], consts: Dict[st
                 w['=> ' + target] = r[target]
                 return w
     return None
+
+
+def relevant_atoms(stmts: Sequence[ast.stmt], recv: Optional[str], target: str) -> Set[str]:
+    """Atoms the final value of `target` may depend on (data dependences through assignments, control dependences through the tests of
+    compound statements that assign a relevant atom, and guards `if t: raise` that mention a relevant atom)."""
+    def atoms_of(e: ast.AST) -> Set[str]:
+        out: Set[str] = set()
+        for n in ast.walk(e):
+            k = atom_key(n, recv) if isinstance(n, (ast.Name, ast.Attribute, ast.Call)) else None
+            if k is not None:
+                out.add(k)
+        return out
+    ae = AbsExec(recv, {}, '')
+    rel: Set[str] = {target}
+    changed = True
+    while changed:
+        changed = False
+        for st in stmts:
+            for n in [st] + [x for x in pf.walk_shallow(st) if isinstance(x, ast.stmt)]:
+                add: Set[str] = set()
+                if isinstance(n, (ast.Assign, ast.AnnAssign, ast.AugAssign)) and getattr(n, 'value', None) is not None:
+                    if ae.assigned([n]) & rel:
+                        add = atoms_of(n.value) | (atoms_of(n.target) if isinstance(n, ast.AugAssign) else set())
+                elif isinstance(n, (ast.If, ast.While)):
+                    body_assigns = ae.assigned(list(n.body) + list(n.orelse))
+                    guard = any(isinstance(x, (ast.Raise, ast.Return)) for b in (n.body, n.orelse) for x in b)
+                    if (body_assigns & rel) or (guard and atoms_of(n.test) & rel):
+                        add = atoms_of(n.test)
+                elif isinstance(n, ast.Assert):
+                    if atoms_of(n.test) & rel:
+                        add = atoms_of(n.test)
+                if not add <= rel:
+                    rel |= add
+                    changed = True
+    return rel
